@@ -9,6 +9,10 @@ package llamarunner
 //@ axiom forall s string :: len(s) == 0 ==> svalidutf8(s)
 //@ axiom forall s string :: shasprefix(s, s)
 //@ axiom forall s string, t string, n int :: shasprefix(s, t) && 0 <= n && n <= len(t) ==> shasprefix(s, t[0:n])
+// (C14 audit) two more facts about strings (trusted, listed in props/C14.json): a string is its own full-length
+// substring; a prefix of a prefix is a prefix.
+//@ axiom forall s string :: s[0:len(s)] == s
+//@ axiom forall s string, a int, b int :: 0 <= b && b <= a && a <= len(s) ==> s[0:a][0:b] == s[0:b]
 
 //@ func flushPending
 //@   modifies seq.pendingResponses
@@ -16,6 +20,14 @@ package llamarunner
 //@   loop 1 decreases len(joined)
 //@   assert-at send responses #1 : svalidutf8(sent) && len(sent) > 0 && shasprefix(old(sjoin(seq.pendingResponses, "")), sent)
 //@   ensures len(seq.pendingResponses) == 0
+// -- added by the C14 audit: "drop invalid tail on final flush" drops ONLY the invalid tail - what is
+// sent is the LONGEST valid prefix of the withheld text (no longer prefix of it is valid UTF-8), and
+// when nothing is sent no non-empty prefix was valid. Otherwise generated text would be lost and the
+// streamed text would not "end at the end-of-sequence token or the prediction limit".
+//@   loop 1 invariant joined == old(sjoin(seq.pendingResponses, ""))[0:len(joined)] && len(joined) <= len(old(sjoin(seq.pendingResponses, "")))
+//@   loop 1 invariant forall n int :: len(joined) < n && n <= len(old(sjoin(seq.pendingResponses, ""))) ==> !svalidutf8(old(sjoin(seq.pendingResponses, ""))[0:n])
+//@   assert-at send responses #1 : forall n int :: len(sent) < n && n <= len(old(sjoin(seq.pendingResponses, ""))) ==> !svalidutf8(old(sjoin(seq.pendingResponses, ""))[0:n])
+//@   assert-at return #1 : forall n int :: 0 < n && n <= len(old(sjoin(seq.pendingResponses, ""))) ==> !svalidutf8(old(sjoin(seq.pendingResponses, ""))[0:n])
 
 // ---- processBatch: the per-token stop / withhold / flush decision -------------------------------
 // Only this decision is under contract (order-of-effects with recorded results); the model,
@@ -29,6 +41,18 @@ package llamarunner
 //@ extern func log/slog.Debug
 //@   modifies nothing
 //@ extern func log/slog.Warn
+//@   modifies nothing
+// (C14/C07 audit) trusted frames, read off llama/llama.go and runner/llamarunner/image.go: the batch accessors
+// and ImageContext.NeedCrossAttention only read; Batch.Add writes the batch's own (C) memory only.
+//@ extern func llama.(*Batch).Size
+//@   modifies nothing
+//@ extern func llama.(*Batch).NumTokens
+//@   modifies nothing
+//@ extern func llama.(*Batch).IsEmbedding
+//@   modifies nothing
+//@ extern func llama.(*Batch).Add
+//@   modifies *b
+//@ extern func (*ImageContext).NeedCrossAttention
 //@   modifies nothing
 //@ func (*Server).processBatch
 //@   opt safe panic
@@ -44,6 +68,45 @@ package llamarunner
 //@   assert-at call removeSequence #3 : arg2 == llm.DoneReasonStop
 //@   assert-at call removeSequence #4 : arg2 == llm.DoneReasonStop && ghost_fs == 1
 //@   assert-at call removeSequence #5 : arg2 == llm.DoneReasonConnectionClosed && ghost_fs == 0 && ghost_cs == 0 && ghost_iu == 0
+// -- added by the C14/C07 audit (twin of the ollamarunner clauses; see there for the derivation) --
+// C14: after an end-of-generation token nothing more is appended to the text; the sequence removed is the
+// one at hand; the withheld list grows by exactly the sampled token's piece; a sequence that has reached
+// its prediction limit gets nothing queued in this pass.
+//@   ghost-at after call TokenIsEog #1 : ghost_eos := ite(result, 1, 0)
+//@   assert-at call append #4 : ghost_eos == 0 && arg0 == seq.pendingResponses && len(arg1) == 1 && arg1[0] == piece
+//@   assert-at call removeSequence #1 : arg1 == seqIdx
+//@   assert-at call removeSequence #3 : arg1 == i && ghost_eos == 1
+//@   assert-at call removeSequence #4 : arg1 == i
+//@   assert-at call removeSequence #5 : arg1 == i
+//@   assert-at call Add #1 : !(seq.numPredict > 0 && seq.numPredicted >= seq.numPredict)
+// C07 "cache record trimmed when a stop sequence removes generated tokens": the new record is a prefix of
+// the old one, never contains the token sampled in this pass (not yet given to the model) and has dropped
+// every token whose piece was removed or cut by TruncateStop.
+//@   ghost-at call TruncateStop #1 : ghost_olen := len(arg0)
+//@   ghost-at after call TruncateStop #1 : ghost_nlen := len(result.0)
+//@   ghost-at after call TruncateStop #1 : ghost_trunc := ite(result.1, 1, 0)
+//@   assert-at store Inputs #4 : len(stored) <= len(seq.cache.Inputs) && len(stored) <= len(seq.cache.Inputs) + 1 - (ghost_olen - ghost_nlen) - ghost_trunc      -- #4: the selector matches field names by suffix, stores to pendingInputs count too
+//@   assert-at store Inputs #4 : stored == seq.cache.Inputs[0:len(stored)]
+// C07 "positions assigned from cached+pending length; cache record appended after Decode": the position
+// handed to llama.cpp for an input is its index in the slot's record at that moment (cached + queued,
+// after a possible context shift), under the slot's sequence id only; the token queued is the token of
+// the input recorded as pending; logits are requested exactly for the last input of the queue; a context
+// shift happens only while nothing of the sequence is queued, for the sequence's own slot and keep count;
+// after a failed shift the inputs handed back go in front of the remaining queue; after Decode the queued
+// inputs are appended to the record; the queue loses exactly the queued inputs; the sampled token is the
+// next input.
+//@   ghost-at call Add #1 : ghost_tok := arg1
+//@   assume-at call Add #1 : len(seq.cache.Inputs) + len(seq.pendingInputs) < 4611686018427387904   -- range assumption (the int sum does not wrap), as in the ollamarunner twin
+//@   assert-at call Add #1 : arg3 == len(seq.cache.Inputs) + len(seq.pendingInputs)
+//@   assert-at call Add #1 : len(arg5) == 1 && arg5[0] == seq.cache.Id
+//@   assert-at call Add #1 : arg0 == batch
+//@   assert-at call Add #1 : arg4 <==> i + 1 == len(seq.inputs)
+//@   assert-at call append #2 : arg0 == seq.pendingInputs && len(arg1) == 1 && arg1[0].token == ghost_tok
+//@   assert-at call ShiftCacheSlot #1 : len(seq.pendingInputs) == 0 && arg0 == s.cache && arg1 == seq.cache && arg2 == seq.numKeep
+//@   assert-at call append #1 : arg1 == seq.inputs && len(seq.pendingInputs) == 0
+//@   assert-at call append #3 : arg0 == seq.cache.Inputs && arg1 == seq.pendingInputs
+//@   assert-at store inputs #2 : stored == seq.inputs[len(seq.pendingInputs):]
+//@   assert-at store inputs #3 : len(stored) == 1 && stored[0].token == token
 
 // removeSequence: the final flush and the reason are in place before the stream is closed.
 //@ func (*Server).removeSequence
@@ -51,3 +114,9 @@ package llamarunner
 //@   ghost-at entry : ghost_flushed := 0
 //@   ghost-at after call flushPending #1 : ghost_flushed := 1
 //@   assert-at call close #1 : ghost_flushed == 1 && seq.doneReason == reason
+// (C14/C07 audit) C07 "a slot in use is never given to a second request": when the semaphore lets the next
+// request in, the finished sequence is no longer in s.seqs (processBatch will not touch it or its slot
+// again) and only then is its slot free; the stream that is closed and the slot that is released are
+// those of the sequence at seqIndex.
+//@   assert-at call Release #1 : s.seqs[seqIndex] == nil && !seq.cache.InUse
+//@   assert-at call flushPending #1 : arg0 == s.seqs[seqIndex]
